@@ -27,10 +27,10 @@ def best_makespan(instance, flt):
         if key in memo:
             return memo[key]
         choices = [(op, m) for op in list(d.available_operations()) for m in op.machines]
-        best = None
+        best = float("inf")      # no available operation in an incomplete state: a dead end
         for op, m in choices:
             v = rec(history + [(op, m)])
-            if best is None or v < best:
+            if v < best:
                 best = v
         memo[key] = best
         return best
